@@ -43,6 +43,46 @@ Example C08_node_premises_satisfiable :
 Proof. exact ex_c08_premises. Qed.
 Print Assumptions C08_node_premises_satisfiable.
 
+(* ---------------------------------------------------------------------------------------------------------------------------------- *)
+(* WITH additional_starts / additional_ends (NodeErrST.v): as in Props/C07_node.v; S = T = [] gives back the statements above
+   (C08_node_choice_without_starts_ends). *)
+From FP Require Import NodeFlowST NodeErrST.
+
+Theorem C08_node_kmpe_optimal_with_starts_ends : forall (V : list node) (E : list PathEnc.edge) (S T : list node) (s t : node) (topo : list node)
+    (fq sc : node -> Q) (ign : list node) (isint : bool) (k : nat),
+  ~ In s (expV V) -> ~ In t (expV V) -> s <> t -> (forall e, In e E -> In (fst e) V /\ In (snd e) V) -> NoDup V -> NoDup E ->
+  (forall u v, In (u, v) E -> (posn topo u < posn topo v)%nat) -> incl V topo ->
+  forall a : var -> Q, node_domain1 V fq sc ign isint k ->
+  let M := node_kmpe_instST V E S T s t fq sc ign isint k in
+  sat a (encode_kmpe M) -> (forall b, sat b (encode_kmpe M) -> (objective a (encode_kmpe M) <= objective b (encode_kmpe M))%Q) ->
+  (exists Pn w sl, node_kmpe_choiceST V E S T fq sc ign isint k Pn w sl /\ (sumq sl (layers k) == objective a (encode_kmpe M))%Q) /\
+  (forall Pn w sl, node_kmpe_choiceST V E S T fq sc ign isint k Pn w sl -> (objective a (encode_kmpe M) <= sumq sl (layers k))%Q).
+Proof. exact node_kmpe_optimalST. Qed.
+Print Assumptions C08_node_kmpe_optimal_with_starts_ends.
+
+Theorem C08_node_kmpe_feasible_iff_with_starts_ends : forall (V : list node) (E : list PathEnc.edge) (S T : list node) (s t : node) (topo : list node)
+    (fq sc : node -> Q) (ign : list node) (isint : bool) (k : nat),
+  ~ In s (expV V) -> ~ In t (expV V) -> s <> t -> (forall e, In e E -> In (fst e) V /\ In (snd e) V) -> NoDup V -> NoDup E ->
+  (forall u v, In (u, v) E -> (posn topo u < posn topo v)%nat) -> incl V topo ->
+  ((exists a, sat a (encode_kmpe (node_kmpe_instST V E S T s t fq sc ign isint k))) <->
+   (exists Pn w sl, node_kmpe_choice_boundedST V E S T fq sc ign isint k Pn w sl)).
+Proof. exact node_kmpe_feasible_iffST. Qed.
+Print Assumptions C08_node_kmpe_feasible_iff_with_starts_ends.
+
+Theorem C08_node_choice_without_starts_ends : forall V E fq sc ign isint k Pn w sl,
+  node_kmpe_choiceST V E [] [] fq sc ign isint k Pn w sl <-> node_kmpe_choice V E fq sc ign isint k Pn w sl.
+Proof. exact node_kmpe_choice_nil_iff. Qed.
+Print Assumptions C08_node_choice_without_starts_ends.
+
+(* non-vacuity: path 1 -> 2 with node weights 3, 5, k = 2: without additional starts every choice has total slack >= 1; with node 2 as
+   additional start the paths 1-2 (weight 3) and 2 (weight 2) need no slack *)
+Example C08_node_additional_start_lowers_the_optimum :
+  node_domain1 exV exfq exsc [] false 2 /\
+  (forall Pn w sl, node_kmpe_choiceST exV exE [] [] exfq exsc [] false 2 Pn w sl -> (1 <= sumq sl (layers 2))%Q) /\
+  node_kmpe_choiceST exV exE [2%N] [] exfq exsc [] false 2 exPn2 exw2 (fun _ => 0%Q) /\ (sumq (fun _ : N => 0%Q) (layers 2) == 0)%Q.
+Proof. exact ex_c08_st. Qed.
+Print Assumptions C08_node_additional_start_lowers_the_optimum.
+
 (* ---- audit additions (agent-c19): instances of the hypotheses the Example above does not reach ---- *)
 From Coq Require Import Lqa.
 From FP Require ErrEncProofs2 ErrEncComplete ErrEncOptimal ErrEncOptimal2.
